@@ -77,6 +77,9 @@ def inputs_for(bpt, tier):
 
 class C07(Check):
     pid = "C07"
+    level_text = (
+        "Bounded exhaustive over PretextView scripts biased to sub-texel tails, absent scaffolds, re-meeting halves and five separator kinds, plus arbitrary bait multisets; facing-end adjacency model as oracle."
+    )
     technique = (
         "exhaustive scope enumeration on the real BuildAssembly: PretextView-model scripts on inputs with sub-texel tails, absent "
         "scaffolds and five separator kinds, plus arbitrary bait multisets; facing-end adjacency model as oracle"
